@@ -352,6 +352,15 @@ def run_square(ctx):
                 if sv[-1] / sv[0] > 1e-9:
                     ctx.violation('C12:SquareMatrices:det0:' + mech, 'sigma_min/sigma_max = %r' % (sv[-1] / sv[0]), wit)
             ctx.nontrivial(['SQ', cfg, d])
+        if det is not None:
+            # samplers that work by trial and error: the same object keeps delivering, draw after draw
+            for d in range(ctx.pick(400, 2000)):
+                ctx.seed_case('sq-long', idx, d)
+                v = draw(ctx, s, 'SquareMatrices:long_lived:' + mech, {'config': cfg, 'norm': norm, 'draw_number': ndraw + d})
+                ctx.count('square_matrix_draws')
+                ctx.count('long_lived_sampler_draws')
+                if v is None:
+                    break
     ctx.subspace('SquareMatrices dimension 2-5 x symmetry x traceless x determinant x complex', len(combos) // ctx.nshards, True)
     return accepted
 
